@@ -768,6 +768,32 @@ func termLoopRule(c *Ctx, rule string) {
 				if !hasTicker {
 					continue
 				}
+				judge := func(call ssa.Instruction, a ssa.Value) {
+					n++
+					chain, root := m.ctxAncestors(a)
+					ok := false
+					for _, k := range chain {
+						for _, tk := range terms {
+							if k == tk {
+								ok = true
+							}
+						}
+					}
+					c.check(ok, rule, "periodic loop "+shortFn(g)+" runs under the term context", call,
+						"context argument %s (root %s): derived from the term context created in the claim-set unit (whose cancel every demotion calls): %v. On the election's context the loop outlives its term and runs next to the next term's loop after a quick re-election.", m.Sym.Of(a), m.Sym.Of(root), ok)
+				}
+				// the loop function itself is what is started (go e.loop(ctx), or a spawn helper that
+				// is handed the loop and its context): the context among the arguments of that start
+				if t == g {
+					if ci, ok := sp.At.(ssa.CallInstruction); ok {
+						for _, a := range ci.Common().Args {
+							if isNamed(a.Type(), "context", "Context") {
+								judge(sp.At, a)
+							}
+						}
+					}
+					continue
+				}
 				// the call of g on the way from the spawned function, and its context argument
 				for _, h := range sortedFns(m.staticReach(t, false)) {
 					eachInstr(h, func(in ssa.Instruction) {
@@ -779,18 +805,7 @@ func termLoopRule(c *Ctx, rule string) {
 							if !isNamed(a.Type(), "context", "Context") {
 								continue
 							}
-							n++
-							chain, root := m.ctxAncestors(a)
-							ok := false
-							for _, k := range chain {
-								for _, tk := range terms {
-									if k == tk {
-										ok = true
-									}
-								}
-							}
-							c.check(ok, rule, "periodic loop "+shortFn(g)+" runs under the term context", call,
-								"context argument %s (root %s): derived from the term context created in the claim-set unit (whose cancel every demotion calls): %v. On the election's context the loop outlives its term and runs next to the next term's loop after a quick re-election.", m.Sym.Of(a), m.Sym.Of(root), ok)
+							judge(call, a)
 						}
 					})
 				}
@@ -881,6 +896,32 @@ func (m *Model) termBound(h *ssa.Function, depth int) int {
 					return
 				}
 				n++
+				// a phase of h's own body that clears the claim (decide / apply split): the call is
+				// decided by the term comparison made in h or in the deciding phase
+				if len(m.callers[g]) == 1 && g.Parent() == nil {
+					hasCtx := false
+					for _, q := range g.Params {
+						if isNamed(q.Type(), "context", "Context") {
+							hasCtx = true
+						}
+					}
+					if !hasCtx {
+						decided := false
+						for _, l := range append(m.controlCondsDeep(call, 0), m.GuardsAt(call)...) {
+							if m.isTermIdentityLit(l) {
+								for _, a := range l.S.Args {
+									if a.V == ssa.Value(p) {
+										decided = true
+									}
+								}
+							}
+						}
+						if !decided {
+							ok = false
+						}
+						return
+					}
+				}
 				k := m.termBound(g, depth+1)
 				if k < 0 || k >= len(call.Call.Args) || m.traceValueUntil(call.Call.Args[k], func(v ssa.Value) bool { return v == ssa.Value(p) }) != ssa.Value(p) {
 					ok = false
@@ -957,7 +998,9 @@ func (m *Model) alwaysReachesClearUnit(g *ssa.Function, depth int) bool {
 		return false
 	}
 	if containsFn(m.ClaimClear, g) && !containsFn(m.StopUnits, g) {
-		return true
+		// ... and the unit does clear the claim: no test of other state of the election ("the run
+		// has ended anyway") stands between a demotion request and the Store(false) (C04-R7)
+		return m.clearUnitClears(g)
 	}
 	isClear := func(in ssa.Instruction) bool {
 		if call, ok := in.(*ssa.Call); ok {
